@@ -97,6 +97,15 @@ class IterV:
         self.kind, self.base = kind, base
 
 
+class EmptyMap:
+    """immutables.Map() / {} before its key and value types are known"""
+    def __repr__(self):
+        return "EmptyMap"
+
+
+EMPTY_MAP = EmptyMap()
+
+
 class Closure:
     def __init__(self, node, frame_index, globs, qualname):
         self.node = node
@@ -140,13 +149,14 @@ class GhostNS:
 
 
 class Frame:
-    __slots__ = ('vars', 'parent', 'globs', 'qualname')
+    __slots__ = ('vars', 'parent', 'globs', 'qualname', 'captured')
 
-    def __init__(self, vars, parent, globs, qualname):
+    def __init__(self, vars, parent, globs, qualname, captured=None):
         self.vars = vars
-        self.parent = parent
+        self.parent = parent        # index of the enclosing frame for *spec* sub-frames only (same activation)
         self.globs = globs
         self.qualname = qualname
+        self.captured = captured    # variables of the defining scope of a closure (snapshot at definition)
 
 
 class State:
@@ -163,7 +173,7 @@ class State:
 
     def fork(self):
         s = State()
-        s.stack = [Frame(dict(f.vars), f.parent, f.globs, f.qualname) for f in self.stack]
+        s.stack = [Frame(dict(f.vars), f.parent, f.globs, f.qualname, f.captured) for f in self.stack]
         s.heap = {k: h.copy() for k, h in self.heap.items()}
         s.pc = list(self.pc)
         s.trace = list(self.trace)
@@ -296,6 +306,13 @@ class Engine:
             if h.kind in ('list', 'set', 'dict'):
                 return self.term(h.val, ty, st)
             raise Outside("mutable object used as a value")
+        if isinstance(v, EmptyMap):
+            if ty is not None and ty.kind == 'map':
+                return z3.K(to_sort(ty.args[0], self.reg), opt_sort(to_sort(ty.args[1], self.reg)).none)
+            if ty is not None and ty.kind == 'opt' and ty.args[0].kind == 'map':
+                inner = self.term(v, ty.args[0], st)
+                return opt_sort(inner.sort()).some(inner)
+            raise Outside("empty map of unknown type used as a value")
         if isinstance(v, V):
             if ty is None or ty == v.ty or ty.kind == 'any':
                 return v.t
